@@ -34,7 +34,8 @@ CONSTANTS MaxT,        \* timestamps are 0..MaxT
           Aggs,        \* aggregates
           OutCap,      \* capacity of an output array / table buffer
           Mode,        \* "cursor" (C20) or "table" (C41)
-          QStarts, QStops, TimeCols   \* C41: query bounds and time column ("none", "start", "stop")
+          QStarts, QStops, TimeCols,  \* C41: query bounds and time column ("none", "start", "stop")
+          EWSAsFound   \* TRUE: *EmptyWindowSelectorTable.advance as found (F39, before the repair); FALSE: repaired
 
 VARIABLES c,       \* the case (inputs)
           inp,     \* cursor: input arrays not yet handed out by the underlying cursor
@@ -253,9 +254,12 @@ EWSFill(cc, arr, idx, rest, wb, buf) ==      \* returns [buf, arr, idx, rest, wb
            rest2 == IF adv /\ rest # <<>> THEN Tail(rest) ELSE rest
            idx2 == IF adv THEN 1 ELSE idx1
        IN EWSFill(cc, arr2, idx2, rest2, wb + cc.e, Append(buf, row))
+\* advance(): as found, `t.arr.Len() == 0 => return false` (F39: the empty windows after the buffer in which the cursor ran
+\* dry were lost); repaired, an exhausted cursor ends the table only before the first window (no data at all) or once every
+\* window of the range has been produced (windowBounds.Start() <= rangeStart \/ >= rangeStop).
 RECURSIVE EWSAdvance(_, _, _, _, _, _)
 EWSAdvance(cc, arr, idx, rest, wb, rows) ==
-  IF arr = <<>> THEN rows                                      \* advance(): t.arr.Len() == 0 => false
+  IF arr = <<>> /\ (EWSAsFound \/ wb <= cc.qs \/ wb >= cc.qe) THEN rows
   ELSE LET r == EWSFill(cc, arr, idx, rest, wb, <<>>)
        IN IF r.buf = <<>> THEN rows ELSE EWSAdvance(cc, r.arr, r.idx, r.rest, r.wb, rows \o r.buf)
 EmptySelectorTableRows(cc, arrs) ==
@@ -327,8 +331,9 @@ FullArrays == \A i \in 1..(Len(outs) - 1) : Len(outs[i]) = OutCap
 
 \* C41
 TableContract == tdone => TObsSeq(c, tbl) = TObsSeq(c, texp)
-\* F18 (see DESIGN section 8 / known_findings.d/C41.json): the createEmpty selector table stops at the end of the buffer in
-\* which the cursor ran dry, dropping the remaining (empty) windows.  The shape of that failure, as a predicate:
+\* F18 (globally F39, known_findings.d/C41.json; repaired in /repo): with EWSAsFound the createEmpty selector table stops at the
+\* end of the buffer in which the cursor ran dry, dropping the remaining (empty) windows.  The shape of that failure, as a
+\* predicate (kept for the as-found lead configuration WindowAgg.Lead_F18.cfg; with EWSAsFound = FALSE TableContract holds):
 F18Shape == /\ c.agg \in Selectors /\ c.ce /\ c.tc = "none"
             /\ Len(tbl) < Len(texp) /\ Len(tbl) % OutCap = 0
             /\ IsPrefix(TObsSeq(c, tbl), TObsSeq(c, texp))
